@@ -976,6 +976,8 @@ pub mod vh1 {
         pub transport_eof: bool,
         /// the second `listen()` (the one relaying the payload) returned `Ok`
         pub session_ok: bool,
+        /// how the second `listen()` ended: `ok` | `err` | `running` (it had not returned 5 s later) | `` (there was none)
+        pub session_end: String,
     }
 
     /// how the client side of [`session_with`] behaves
@@ -1161,7 +1163,14 @@ pub mod vh1 {
                     drop(sink.take());
                     drop(source);
                     obs.upload_end = "aborted".into();
-                    obs.session_ok = tokio::time::timeout(std::time::Duration::from_secs(5), pump).await.ok().and_then(|x| x.ok()).is_some();
+                    let ended = tokio::time::timeout(std::time::Duration::from_secs(5), pump).await.ok().and_then(|x| x.ok());
+                    obs.session_ok = ended.is_some();
+                    obs.session_end = match ended {
+                        Some(true) => "ok",
+                        Some(false) => "err",
+                        None => "running",
+                    }
+                    .into();
                     let _ = writer.await;
                     let (out, eof) = tokio::time::timeout(std::time::Duration::from_secs(2), reader)
                         .await
@@ -1201,7 +1210,14 @@ pub mod vh1 {
                     }
                 }
                 drop(source);
-                obs.session_ok = tokio::time::timeout(std::time::Duration::from_secs(5), pump).await.ok().and_then(|x| x.ok()).unwrap_or(false);
+                let ended = tokio::time::timeout(std::time::Duration::from_secs(5), pump).await.ok().and_then(|x| x.ok());
+                obs.session_ok = ended.unwrap_or(false);
+                obs.session_end = match ended {
+                    Some(true) => "ok",
+                    Some(false) => "err",
+                    None => "running",
+                }
+                .into();
             }
         }
         let _ = writer.await;
